@@ -385,6 +385,9 @@ pub struct Ctx {
     /// register, an undefined encoding) does not end the lock step; what the step wrote is accepted and the walk goes on
     /// from the state the implementation is in
     pub continue_open: bool,
+    /// sequences: a step that the implementation refuses with an error (and that the reference rejects or leaves
+    /// open) does not end the sequence - the stepping caller goes on from whatever state the implementation is in
+    pub continue_after_err: bool,
     /// long programs are registered under several properties: a deviating step is a violation only for the property
     /// that owns the instruction (the others stop silently; the owner's check reports it)
     pub seq_owner: Option<&'static str>,
@@ -435,6 +438,7 @@ impl Ctx {
             closed_form_cost: false,
             via_run: false,
             continue_open: false,
+            continue_after_err: false,
             seq_owner: None,
         }
     }
@@ -1394,6 +1398,21 @@ impl Ctx {
             }
             if self.continue_open && ro.class == Class::Any && matches!(actual, Actual::Ok(_)) {
                 // open outcome in a long program: go on from wherever the implementation is
+                let obs = StepObs { index: done - 1, act, pre_pc, pre_er, pre_ccr, dec, ro: &ro, actual: &actual, post_pc: self.m.cpu.vh_pc(), post_er: self.m.cpu.er, post_ccr: self.m.cpu.vh_ccr(), m: &self.m };
+                match next(&obs) {
+                    Next::Continue(a) => {
+                        act = a;
+                        continue;
+                    }
+                    Next::Stop => break,
+                    Next::Fail(msg) => {
+                        self.seq_violation(msg, init, &trace, Some(&ro), Some(&actual));
+                        break;
+                    }
+                }
+            }
+            if self.continue_after_err && ro.class != Class::Ok && matches!(actual, Actual::Err(_)) {
+                // refused step: nothing is defined about the state it leaves, but it is a state - the next action starts from it
                 let obs = StepObs { index: done - 1, act, pre_pc, pre_er, pre_ccr, dec, ro: &ro, actual: &actual, post_pc: self.m.cpu.vh_pc(), post_er: self.m.cpu.er, post_ccr: self.m.cpu.vh_ccr(), m: &self.m };
                 match next(&obs) {
                     Next::Continue(a) => {
